@@ -187,13 +187,24 @@ func (i *inst) applyOp(op int) {
 		}
 		i.m.cur = addKey(i.m.cur, key)
 	case opSP1, opSP2:
-		if err := i.tx.SavePoint(name).Error; err != nil {
+		// with a derived handle in play the two names are issued through
+		// different handles of the same transaction: s1 saved via tx and rolled
+		// back via the derived handle, s2 the other way round
+		sph := i.tx
+		if op == opSP2 {
+			sph = i.h
+		}
+		if err := sph.SavePoint(name).Error; err != nil {
 			i.fail("SavePoint failed", "SavePoint(%s): %v", name, err)
 			return
 		}
 		i.m.stack = append(i.m.stack, savePoint{name, copyKeys(i.m.cur)})
 	case opRT1, opRT2:
-		err := i.tx.RollbackTo(name).Error
+		rth := i.h
+		if op == opRT2 {
+			rth = i.tx
+		}
+		err := rth.RollbackTo(name).Error
 		idx := -1
 		for j := len(i.m.stack) - 1; j >= 0; j-- {
 			if i.m.stack[j].name == name {
@@ -302,9 +313,29 @@ func (i *inst) applyOp(op int) {
 		} else if !sameKeys(got, i.m.cur) {
 			i.fail("table in transaction differs from reference", "after %s: table %s, reference %s", opName[op], keyList(got), keyList(i.m.cur))
 		}
+		if i.kind == "" {
+			// a read through the write handle and Row() (QueryRowContext path)
+			cnt, rerr, pv, panicked := rowCount(i.h)
+			switch {
+			case panicked:
+				i.broken = true
+				i.fail("unexpected panic", "Row() read after %s panicked: %v", opName[op], pv)
+			case rerr != nil:
+				i.fail("read failed", "Row() read after %s: %v", opName[op], rerr)
+			case cnt != len(i.m.cur):
+				i.fail("read in transaction differs from reference", "after %s: Row() read counts %d rows, reference %s", opName[op], cnt, keyList(i.m.cur))
+			}
+		}
+		if fc := foreignConn(i.env.Rec.Events()); fc != "" && i.kind == "" {
+			i.fail("statement outside the transaction's connection", "%s", fc)
+		}
 		return
 	}
 	// the sequence has ended
+	if fc := foreignConn(i.env.Rec.Events()); fc != "" {
+		i.fail("statement outside the transaction's connection", "%s", fc)
+		return
+	}
 	if l := i.env.Leaks(); l != "" {
 		i.broken = true
 		i.fail("leak", "after %s: %s", opName[op], l)
